@@ -19,6 +19,6 @@ PROP = {'technique': 'property-based testing (rapid): virtual-clock simulation o
                  '"roughly five seconds" = the last 5 or 6 whole-second buckets ending at the second of the latest feedback event',
                  'SustainedRate reads "sends at the configured rate / never stalled" as: a backlogged, window-unlimited sender that sleeps '
                  'exactly until each announced time releases >= 0.97 x the configured rate'],
- 'tests': [{'name': 'TestVerifC11_Pacer', 'unit': PACER, 'quick': 12000, 'thorough': 60000, 'shards_thorough': 8},
-           {'name': 'TestVerifC11_BrutalSendLoop', 'unit': BRUTAL, 'quick': 12000, 'thorough': 60000, 'shards_thorough': 12},
-           {'name': 'TestVerifC11_SustainedRate', 'unit': BRUTAL, 'quick': 400, 'thorough': 2500, 'shards_thorough': 8}]}
+ 'tests': [{'name': 'TestVerifC11_Pacer', 'unit': PACER, 'quick': 12000, 'thorough': 40000, 'shards_thorough': 8},
+           {'name': 'TestVerifC11_BrutalSendLoop', 'unit': BRUTAL, 'quick': 12000, 'thorough': 40000, 'shards_thorough': 8},
+           {'name': 'TestVerifC11_SustainedRate', 'unit': BRUTAL, 'quick': 400, 'thorough': 1500, 'shards_thorough': 8}]}
